@@ -82,6 +82,12 @@ def _job(args):
                         files[f]["body"].append(("from", 0, scan.dotted(tgt[k:-1]), [tgt[-1]] + (["helper"] if rng.random() < 0.3 else [])))
                     else:
                         files[f]["body"].append(("import", [scan.dotted(tgt[k:])]))
+        if rng.random() < 0.3:
+            # symbolic links inside the project (a module file under a second name, a package under a second name): a link is what
+            # its path says - the modules below it are named by the path through the link
+            dirs = scan.add_links(rng, dirs, files)
+            if dirs.links or any(v.get("link_to") for v in files.values()):
+                out["stats"]["projects_with_symlinks"] = out["stats"].get("projects_with_symlinks", 0) + 1
         base = scan.materialise(dirs, files)
         # now and then with exclusion patterns that differ from names of the tree only in case: they exclude nothing
         xk = {}
